@@ -79,6 +79,19 @@ class Sigs:
         return k, f, m
     raise Unsupported('translator:?:?:FunctionDef:%s has no %s' % (name, member))
 
+  def const_strs(self, f, v):
+    """A list of string constants written as a list / tuple display, or as [list(]NAME[)] for a module-level constant of that form."""
+    if isinstance(v, ast.Call) and isinstance(v.func, ast.Name) and v.func.id in ('list', 'tuple') and len(v.args) == 1 and not v.keywords:
+      v = v.args[0]
+    if isinstance(v, ast.Name):
+      defs = [s for s in self.trees[f].body if isinstance(s, ast.Assign) and len(s.targets) == 1 and isinstance(s.targets[0], ast.Name) and s.targets[0].id == v.id]
+      if len(defs) != 1:
+        return None
+      v = defs[0].value
+    if isinstance(v, (ast.List, ast.Tuple)) and all(isinstance(e, ast.Constant) and isinstance(e.value, str) for e in v.elts):
+      return [e.value for e in v.elts]
+    return None
+
   # -------------------------------------------------------------- __init__
   def init_info(self, owner):
     """-> dict(params, required, varkw(name or None), forced, forwards, keys_base, keys_meta) for the __init__ defined in `owner`"""
@@ -99,9 +112,10 @@ class Sigs:
       if len(keys_assign) != 2 or not all(s in m.body or any(s in b.body for b in m.body if isinstance(b, ast.For)) for s in keys_assign):
         fail(f, m, '_keys must be built by exactly one literal assignment and one `+= list(meta.keys())`')
       first, second = sorted(keys_assign, key=lambda s: s.lineno)
-      if not (isinstance(first, ast.Assign) and isinstance(first.value, ast.List) and all(isinstance(e, ast.Constant) and isinstance(e.value, str) for e in first.value.elts)):
+      base = self.const_strs(f, first.value) if isinstance(first, ast.Assign) else None
+      if base is None:
         fail(f, first, '_keys literal')
-      info['keys_base'] = [e.value for e in first.value.elts]
+      info['keys_base'] = base
       v = second.value if isinstance(second, ast.AugAssign) and isinstance(second.op, ast.Add) else None
       ok = isinstance(v, ast.Call) and isinstance(v.func, ast.Name) and v.func.id == 'list' and len(v.args) == 1 and isinstance(v.args[0], ast.Call) \
           and isinstance(v.args[0].func, ast.Attribute) and v.args[0].func.attr == 'keys' and isinstance(v.args[0].func.value, ast.Name) \
